@@ -18,6 +18,13 @@ Sub-checks
   presence    verify_play on plays without vars / signature / exclusion list (GPG stubbed)
   verify      verify() end to end with a toy signature scheme in place of GPG and a generated
               revocation list in place of insights/revoked_playbooks.yaml
+  shared      plays whose object graph is not a tree (YAML anchors / aliases, one Python object referenced
+              from several places: vars / hosts / their children / tasks re-used in a task, in vars, at top
+              level) x single edit; reference model of the exclusion rules over the node graph
+  playbook    whole playbooks of 1-4 plays (valid, edited after signing, revoked, wrongly signed, unsigned,
+              bad exclusion list - at any position) through the command-line entry point
+              `python -m insights.client.apps.ansible.playbook_verifier` (run in-process: stdin / exit status)
+              and through a sequence of verify() calls in one process
 """
 import base64
 import copy
@@ -44,7 +51,16 @@ RULE = ("plays = JSON trees of mappings (string / int / float / bool / null keys
         "their cleaned canonical forms differ (edit outside the excluded elements) and the play contains a "
         "string with a quote, backslash or delimiter sequence; distinct by the pair of cleaned canonical "
         "forms. Exhaustive part: one global collision table over a bounded universe of small plays (about "
-        "1.5*10^5 in the quick tier) incl. plays crafted from the actual serialised text of two neighbours.")
+        "1.5*10^5 in the quick tier) incl. plays crafted from the actual serialised text of two neighbours. "
+        "shared: the same plays and edits with 1-2 nodes (vars, hosts, a child of them, tasks, a task, another "
+        "top-level value) turned into shared nodes referenced from a new task / a new child of vars / a new "
+        "top-level key (YAML anchor + alias in either document order, or one Python object); non-trivial: at least "
+        "one shared node and the pair differs (outside or only inside the excluded elements). playbook: 1-4 "
+        "generated signed plays, each valid / changed inside its excluded elements after signing / revoked / edited "
+        "/ wrongly signed / unsigned / without or with a bad exclusion list (one faulty play at a late-biased "
+        "position, all valid, or free mix), 0-2 unrelated revocation entries, run through the module entry point "
+        "or a verify() sequence; non-trivial: the first play to refuse is not the first play, or several plays all "
+        "accepted.")
 ASSUMPTIONS = [
     "the digest is observed as hash_play(serialize_play(exclude_dynamic_elements(play))) - the exact "
     "composition verify_play hands to GPG (sub-checks presence/verify confirm that this value reaches "
@@ -57,6 +73,12 @@ ASSUMPTIONS = [
     "exclusion requests are enforced only where the statement decides them: '/label' or '/label/child' "
     "with non-empty parts; other spellings (no leading slash, doubled or trailing slash, blanks, empty "
     "request, the same element requested twice or together with its parent) are accepted either way",
+    "shared nodes: a YAML alias / a Python object referenced twice is ONE node with several parents (YAML "
+    "representation graph); an excluded element is an entry of its node and is removed from that node wherever "
+    "the node is referenced. When the *value* of an excluded element is itself still referenced from a "
+    "non-excluded place, a change of that value is neither required to change the digest nor to keep it",
+    "playbook: 'rejected' / 'verification error' at the entry point = non-zero exit status; accepted = exit "
+    "status 0 (what is printed is not asserted); SKIP_VERIFY is removed from the environment for the run",
 ]
 EXCLUDED = [
     "YAML anchors on booleans (ruamel loads '&a true' as ScalarBoolean, an int subclass that the "
@@ -67,6 +89,8 @@ EXCLUDED = [
     "a vars.insights_signature_exclude value that is not a string (null, int, list): the code raises "
     "AttributeError instead of PlaybookVerificationError; the statement only speaks of a missing list",
     "strings with lone surrogates (cannot be encoded to UTF-8 by serialize_play)",
+    "shared: recursive plays (a node that contains itself; the serialiser cannot terminate), anchors on "
+    "ints / floats / nulls (immutable, sharing has no effect) and on booleans (finding above)",
 ]
 
 EXCL = "insights_signature_exclude"
@@ -228,25 +252,36 @@ def _y_scalar(n, inline_only=False):
     raise HarnessError("not a scalar node: %r" % (n,))
 
 
-def _emit(n, ind, lines):
+def _emit(n, ind, lines, ctx=None):
     if "m" in n:
         for k, v in n["m"]:
             ks = _y_scalar(k, inline_only=True)[0]
             if ks == "":
                 ks = "null"
-            _emit_value(ind + ks + ":", v, ind, lines)
+            _emit_value(ind + ks + ":", v, ind, lines, ctx)
     else:
         for x in n["l"]:
-            _emit_value(ind + "-", x, ind, lines)
+            _emit_value(ind + "-", x, ind, lines, ctx)
 
 
-def _emit_value(prefix, v, ind, lines):
+def _emit_value(prefix, v, ind, lines, ctx=None):
+    if "ref" in v:
+        # shared node: the first occurrence in document order carries the anchor, later ones are aliases
+        rid = v["ref"]
+        if rid in ctx["done"]:
+            lines.append(prefix + " *" + rid)
+            return
+        ctx["done"].add(rid)
+        prefix = prefix + " &" + rid
+        v = ctx["defs"][rid]
+        if "ref" in v:
+            raise HarnessError("a shared node that is only a reference")
     if "m" in v or "l" in v:
         if not (v.get("m") or v.get("l")):
             lines.append(prefix + (" {}" if "m" in v else " []"))
         else:
             lines.append(prefix)
-            _emit(v, ind + "  ", lines)
+            _emit(v, ind + "  ", lines, ctx)
         return
     inline, block = _y_scalar(v)
     if block is None:
@@ -257,11 +292,12 @@ def _emit_value(prefix, v, ind, lines):
             lines.append((ind + "  " + b) if b else "")
 
 
-def emit_yaml(play_tree):
+def emit_yaml(play_tree, defs=None):
+    """defs: {anchor name: node} for the {"ref": name} nodes of a play with shared nodes"""
     if not play_tree.get("m"):
         return "- {}\n"
     lines = []
-    _emit(play_tree, "  ", lines)
+    _emit(play_tree, "  ", lines, {"defs": defs or {}, "done": set()})
     lines[0] = "- " + lines[0][2:]
     return "\n".join(lines) + "\n"
 
@@ -300,13 +336,8 @@ def _find(items, key):
     return None
 
 
-def model_clean(c):
-    """c = canon(play) with vars a mapping holding a string exclusion list.
-    -> ("ok", canon of the cleaned play) | ("err", why) | ("ambiguous", why)"""
-    c = copy.deepcopy(c)
-    items = c[1]
-    vars_ = items[_find(items, ["s", "vars"])][1]
-    ex = vars_[1][_find(vars_[1], ["s", EXCL])][1][1]
+def _parse_requests(ex):
+    """the exclusion list as the statement reads it -> ("ok", [[label] | [label, child], ...]) | ("err" | "ambiguous", why)"""
     parsed = []
     for r in ex.split(","):
         parts = r.split("/")[1:]
@@ -324,6 +355,19 @@ def model_clean(c):
         if tuple(parts) in seen or (len(parts) == 2 and parts[0] in tops):
             return ("ambiguous", "element requested twice / together with its parent")
         seen.add(tuple(parts))
+    return ("ok", parsed)
+
+
+def model_clean(c):
+    """c = canon(play) with vars a mapping holding a string exclusion list.
+    -> ("ok", canon of the cleaned play) | ("err", why) | ("ambiguous", why)"""
+    c = copy.deepcopy(c)
+    items = c[1]
+    vars_ = items[_find(items, ["s", "vars"])][1]
+    ex = vars_[1][_find(vars_[1], ["s", EXCL])][1][1]
+    verdict, parsed = _parse_requests(ex)
+    if verdict != "ok":
+        return (verdict, parsed)
     for parts in parsed:
         i = _find(items, ["s", parts[0]])
         if i is None:
@@ -339,6 +383,78 @@ def model_clean(c):
             return ("err", "missing-key: %s" % "/".join(parts))
         del sub[1][j]
     return ("ok", c)
+
+
+# ---- the same model for plays whose object graph is not a tree ------------------------------------
+# A YAML alias (or a Python object referenced twice) denotes ONE node with several parents.  The play is
+# read as a graph: every container is a node, numbered by identity in first-visit order; an excluded
+# element is an *entry* of a node (play -> hosts / vars, hosts / vars node -> child).  Removing the entry
+# removes it from that node, wherever the node is referenced; the removed value stays part of the play
+# where another, non-excluded entry still references it.
+
+def graph_of(o):
+    """-> (root, nodes): nodes[n] = ["m", [[canon key, child], ...]] | ["l", [child, ...]],
+    child = canon scalar | ["r", n]"""
+    ids = {}
+    nodes = []
+    onpath = set()
+
+    def walk(x):
+        if isinstance(x, (dict, list)):
+            i = id(x)
+            if i in ids:
+                if i in onpath:
+                    raise HarnessError("recursive play (a node that contains itself) is outside the generated domain")
+                return ["r", ids[i]]
+            n = ids[i] = len(nodes)
+            nodes.append(None)
+            onpath.add(i)
+            if isinstance(x, dict):
+                nodes[n] = ["m", [[canon(k), walk(v)] for k, v in x.items()]]
+            else:
+                nodes[n] = ["l", [walk(v) for v in x]]
+            onpath.discard(i)
+            return ["r", n]
+        return canon(x)
+
+    return walk(o), nodes
+
+
+def g_expand(c, nodes):
+    if c[0] == "r":
+        n = nodes[c[1]]
+        if n[0] == "m":
+            return ["m", [[k, g_expand(v, nodes)] for k, v in n[1]]]
+        return ["l", [g_expand(v, nodes) for v in n[1]]]
+    return c
+
+
+def model_clean_graph(p):
+    """p = play object (vars a mapping holding a string exclusion list), shared nodes allowed.
+    -> ("ok", canon of the cleaned play, shared nodes expanded) | ("err", why) | ("ambiguous", why)"""
+    root, nodes = graph_of(p)
+    items = nodes[root[1]][1]
+    vref = items[_find(items, ["s", "vars"])][1]
+    vitems = nodes[vref[1]][1]
+    ex = vitems[_find(vitems, ["s", EXCL])][1][1]
+    verdict, parsed = _parse_requests(ex)
+    if verdict != "ok":
+        return (verdict, parsed)
+    for parts in parsed:
+        i = _find(items, ["s", parts[0]])
+        if i is None:
+            return ("err", "missing-key: %s" % parts[0])
+        if len(parts) == 1:
+            del items[i]
+            continue
+        sub = items[i][1]
+        if sub[0] != "r" or nodes[sub[1]][0] != "m":
+            return ("err", "child-of-non-mapping: %s" % parts[0])
+        j = _find(nodes[sub[1]][1], ["s", parts[1]])
+        if j is None:
+            return ("err", "missing-key: %s" % "/".join(parts))
+        del nodes[sub[1]][1][j]
+    return ("ok", g_expand(root, nodes))
 
 
 # ---- harness-side imitation of the serialiser: only used to *craft* splice edits ---------------------
@@ -1511,6 +1627,455 @@ def strat_verify(tier):
 
 
 # ---------------------------------------------------------------------------------------------
+# plays with shared nodes: YAML anchors / aliases, one Python object referenced from two places
+# ---------------------------------------------------------------------------------------------
+# case["share"] = [{"src": path, "sites": [{"where": "task" | "vars" | "top", "front": bool}, ...]}, ...]
+# path = mapping keys (str) / sequence indexes (int) from the play.  The node at src becomes a shared node
+# ({"ref": name} + table entry) and every site gets one more reference to it: a new task
+# `{name: shared, vars: *ref}`, a new child of vars, or a new top-level key.
+
+def _deref(node, defs):
+    while "ref" in node:
+        node = defs[node["ref"]]
+    return node
+
+
+def _slot_at(tree, defs, path):
+    cur = tree
+    slot = None
+    for step in path:
+        cur = _deref(cur, defs)
+        if isinstance(step, str):
+            hit = [kv for kv in (cur.get("m") or []) if kv[0].get("s") == step]
+            if not hit:
+                return None
+            slot = (hit[0], 1)
+        else:
+            if "l" not in cur or step >= len(cur["l"]):
+                return None
+            slot = (cur["l"], step)
+        cur = slot[0][slot[1]]
+    return slot
+
+
+def _acyclic(tree, defs):
+    state = {}
+
+    def visit(node):
+        if "ref" in node:
+            rid = node["ref"]
+            if state.get(rid) == 1:
+                return False
+            if state.get(rid) == 2:
+                return True
+            state[rid] = 1
+            ok = visit(defs[rid])
+            state[rid] = 2
+            return ok
+        if "m" in node:
+            return all(visit(v) for _k, v in node["m"])
+        if "l" in node:
+            return all(visit(x) for x in node["l"])
+        return True
+
+    return visit(tree)
+
+
+def _share(tree, defs, item):
+    """apply one sharing request in place -> False when it does not apply to this play"""
+    slot = _slot_at(tree, defs, item["src"])
+    if slot is None:
+        return False
+    node = slot[0][slot[1]]
+    if "ref" in node:
+        rid = node["ref"]
+    else:
+        if not ("m" in node or "l" in node or "s" in node):
+            return False        # anchors on ints / floats / nulls / booleans (EXCLUDED) are not generated
+        rid = "a%d" % len(defs)
+        defs[rid] = node
+        slot[0][slot[1]] = {"ref": rid}
+    for k, site in enumerate(item["sites"]):
+        ref = {"ref": rid}
+        entry = [S("zalias_%s_%d" % (rid, k), "p"), ref]
+        target = tree["m"]
+        if site["where"] == "task":
+            s = _slot_at(tree, defs, ["tasks"])
+            if s is not None and "l" in _deref(s[0][s[1]], defs):
+                target = _deref(s[0][s[1]], defs)["l"]
+                entry = M((S("name", "p"), S("shared", "p")), (S("vars", "p"), ref))
+        elif site["where"] == "vars":
+            s = _slot_at(tree, defs, ["vars"])
+            if s is not None and "m" in _deref(s[0][s[1]], defs):
+                target = _deref(s[0][s[1]], defs)["m"]
+        if site.get("front"):
+            target.insert(0, entry)
+        else:
+            target.append(entry)
+    return _acyclic(tree, defs)
+
+
+def with_shared_nodes(plain, share):
+    """-> (tree with {"ref": name} nodes, {name: node}, number of requests applied)"""
+    tree, defs, applied = copy.deepcopy(plain), {}, 0
+    for item in share:
+        t2, d2 = copy.deepcopy((tree, defs))
+        if _share(t2, d2, item):
+            tree, defs, applied = t2, d2, applied + 1
+    return tree, defs, applied
+
+
+def build_shared(n, defs, memo):
+    if "ref" in n:
+        rid = n["ref"]
+        if rid not in memo:
+            memo[rid] = build_shared(defs[rid], defs, memo)
+        return memo[rid]
+    if "m" in n:
+        d = {}
+        for k, v in n["m"]:
+            d[_scalar_py(k)] = build_shared(v, defs, memo)
+        return d
+    if "l" in n:
+        return [build_shared(x, defs, memo) for x in n["l"]]
+    return _scalar_py(n)
+
+
+def _plain_cleaned(tree):
+    """cleaned canonical form of the play *without* the added references (None: no such form)"""
+    try:
+        m = model_clean(canon(build_py(tree)))
+    except (TypeError, IndexError, KeyError, AttributeError):
+        return None         # vars / exclusion list missing or of another type
+    return m[1] if m[0] == "ok" else None
+
+
+def check_shared(case):
+    """digest invariance / injectivity for plays whose vars / hosts / tasks ... are referenced from several places"""
+    pv = _pv()
+    mode = case["mode"]
+    labels = ["mode=" + mode]
+
+    def materialise(plain):
+        tree, defs, applied = with_shared_nodes(plain, case["share"])
+        if mode != "yaml":
+            return build_shared(tree, defs, {}), None, applied
+        text = emit_yaml(tree, defs)
+        try:
+            doc = pv.load_playbook_yaml(text)
+        except pv.PlaybookVerificationError:
+            return None, text, applied
+        if not isinstance(doc, list) or len(doc) != 1 or not isinstance(doc[0], dict):
+            raise HarnessError("emitted YAML is not a one-play playbook: %r" % text)
+        return doc[0], text, applied
+
+    def digest_of(p):
+        """-> ("ok", digest, model's cleaned canon, canon of the real cleaned play) | ("err" | "skip", why)"""
+        vars_ = p.get("vars")
+        if not isinstance(vars_, dict) or EXCL not in vars_ or not isinstance(vars_[EXCL], str):
+            return ("skip", "no-usable-exclusion-list")        # sub-checks digest / presence
+        model = model_clean_graph(p)
+        try:
+            cleaned = pv.exclude_dynamic_elements(p)
+        except pv.PlaybookVerificationError as e:
+            if model[0] == "ok":
+                raise Violation("exclusion list %r only names hosts/vars or existing direct children, but was "
+                                "refused: %s" % (str(vars_[EXCL]), e), play=canon(p))
+            return ("err", model[1].split(":")[0] if model[0] == "err" else "ambiguous-request refused")
+        if model[0] == "err":
+            raise Violation("exclusion list %r must be refused (%s) but was accepted" % (str(vars_[EXCL]), model[1]),
+                            play=canon(p))
+        if model[0] != "ok":
+            return ("skip", "ambiguous-request accepted")
+        try:
+            d = pv.hash_play(pv.serialize_play(cleaned))
+        except UnicodeEncodeError:
+            return ("err", "unencodable")
+        return ("ok", d, model[1], canon(cleaned))
+
+    plain_a = norm(case["a"])
+    pa, ta, applied = materialise(plain_a)
+    labels.append("shared-nodes=%d" % applied)
+    for item in case["share"]:
+        labels.append("src=" + "/".join("#" if isinstance(x, int) else (x if x in ("vars", "hosts", "tasks", SIG, EXCL) else "*")
+                                        for x in item["src"]))
+    if pa is None:
+        return {"nontrivial": False, "labels": labels + ["yaml-a-unloadable"]}
+    oa = digest_of(pa)
+    labels.append("a:" + oa[0] + ("" if oa[0] == "ok" else "/" + oa[1]))
+    if oa[0] != "ok":
+        return {"nontrivial": False, "labels": labels}
+    # nothing changed at all: the same play object gives the same digest again
+    again = digest_of(pa)
+    if again[0] != "ok" or again[1] != oa[1]:
+        raise Violation("the digest of one and the same play object changed between two computations",
+                        play=oa[2], first=oa[1].hex(), second=repr(again[1])[:80], **({"yaml_a": ta} if ta else {}))
+    pca = _plain_cleaned(plain_a)
+    nt, keys, late = False, [], []
+    if oa[3] != oa[2]:
+        late.append(("a", oa))
+    for variant in case["bs"]:
+        lab = ["edit=" + variant["edit"], "region=" + variant["region"]]
+        plain_b = norm(variant["b"])
+        pb, tb, _n = materialise(plain_b)
+        if pb is None:
+            labels += lab + ["yaml-b-unloadable"]
+            continue
+        ob = digest_of(pb)
+        if ob[0] != "ok":
+            labels += lab + ["b:" + ob[0] + "/" + ob[1]]
+            continue
+        det = {"yaml_a": ta, "yaml_b": tb} if ta is not None else {}
+        pcb = _plain_cleaned(plain_b)
+        only_excluded = pca is not None and pca == pcb     # the two documents differ in excluded elements only
+        if oa[2] == ob[2]:
+            if oa[1] != ob[1]:
+                raise Violation("the digest changed although nothing outside the excluded elements changed "
+                                "(play with shared nodes: %s)" % case["share"],
+                                cleaned=oa[2], digest_a=oa[1].hex(), digest_b=ob[1].hex(), **det)
+            lab.append("same-cleaned" + ("/excluded-part-differs" if plain_a != plain_b else "/identical-plays"))
+        elif only_excluded:
+            # the changed excluded element is still referenced from a place that is not excluded: whether that
+            # counts as "only excluded elements change" is not decided by the statement
+            lab.append("excluded-value-still-referenced/not-asserted")
+        else:
+            if oa[1] == ob[1]:
+                raise Violation("two plays (with shared nodes) that differ outside the excluded elements have the "
+                                "same digest", cleaned_a=oa[2], cleaned_b=ob[2], digest=oa[1].hex(), **det)
+            lab.append("differ-outside")
+            nt = nt or applied > 0
+            keys.append([oa[2], ob[2]])
+        if ob[3] != ob[2]:
+            late.append(("b", ob))
+        labels += lab
+    for which, o in late:
+        raise Violation("exclude_dynamic_elements did not remove exactly the requested elements from the nodes they "
+                        "belong to (play %s, shared nodes: %s)" % (which, case["share"]), cleaned=o[3], expected=o[2],
+                        **({"yaml_a": ta} if ta else {}))
+    nt = nt or (applied > 0 and any("same-cleaned/excluded-part-differs" in l for l in labels))
+    return {"nontrivial": nt, "labels": labels, "key": [oa[2], keys]}
+
+
+def _shareable(n):
+    return "m" in n or "l" in n or "s" in n
+
+
+def _share_candidates(tree):
+    cands = []
+    for k, v in tree["m"]:
+        if "s" not in k or not _shareable(v):
+            continue
+        name = k["s"]
+        cands.append([name])
+        if name == "vars":
+            cands += [[name], [name]]
+        if name in LABELS and "m" in v:
+            cands += [[name, ck["s"]] for ck, cv in v["m"] if "s" in ck and _shareable(cv)]
+        if "l" in v:
+            cands += [[name, i] for i, x in enumerate(v["l"]) if _shareable(x)]
+    return cands
+
+
+@st.composite
+def _shared_case(draw):
+    tree, excluded = draw(_play(signed=draw(st.booleans())))
+    cands = _share_candidates(tree)
+    share = []
+    for _ in range(draw(st.sampled_from([1, 1, 2]))):
+        share.append({"src": _pick(draw, cands),
+                      "sites": [{"where": draw(st.sampled_from(["task", "task", "top", "vars"])), "front": draw(st.booleans())}
+                                for _s in range(draw(st.sampled_from([1, 1, 2])))]})
+    bs = []
+    for _ in range(2):
+        kind = draw(st.sampled_from(EDITS))
+        region = draw(st.sampled_from(["any", "excluded"]))
+        if kind == "none":
+            b = copy.deepcopy(tree)
+        else:
+            b = _apply_edit(draw, tree, kind, excluded if region == "excluded" else None)
+            if b == tree:
+                kind = "scalar-fallback"
+                b = _apply_edit(draw, tree, "scalar", excluded if region == "excluded" else None)
+        bs.append({"b": b, "edit": kind, "region": region})
+    return {"mode": draw(st.sampled_from(["yaml", "py"])), "a": tree, "share": share, "bs": bs}
+
+
+def strat_shared(tier):
+    return _shared_case()
+
+
+# ---------------------------------------------------------------------------------------------
+# whole playbooks: several plays, one run of the command-line entry point / one sequence of verify() calls
+# ---------------------------------------------------------------------------------------------
+
+ENTRY_POINT = "insights.client.apps.ansible.playbook_verifier"
+PLAY_KINDS = ["valid", "valid", "valid-excluded-edit", "revoked", "wrong-signature", "edited", "revoked-excluded-edit",
+              "no-signature", "revoked", "no-exclusion-list", "other-label"]
+
+
+def _run_entry_point(text):
+    """python -m insights.client.apps.ansible.playbook_verifier < text, in this process -> (exit status, stdout, stderr)"""
+    import io
+    import os
+    import runpy
+    import sys
+    saved = (sys.stdin, sys.stdout, sys.stderr)
+    skip = os.environ.pop("SKIP_VERIFY", None)
+    out, err = io.StringIO(), io.StringIO()
+    code = 0
+    try:
+        sys.stdin, sys.stdout, sys.stderr = io.StringIO(text), out, err
+        try:
+            runpy.run_module(ENTRY_POINT, run_name="__main__", alter_sys=False)
+        except SystemExit as e:
+            code = e.code
+    finally:
+        sys.stdin, sys.stdout, sys.stderr = saved
+        if skip is not None:
+            os.environ["SKIP_VERIFY"] = skip
+    return (0 if code is None else code), out.getvalue(), err.getvalue()
+
+
+def _has_vars_mapping(tree):
+    return any(kv[0].get("s") == "vars" and "m" in kv[1] for kv in tree["m"])
+
+
+def check_playbook(case):
+    """A playbook of several plays is refused iff one of its plays has to be refused - whatever the position of
+    that play and whatever was verified before it (entry point: exit status; verify() sequence: every verdict)."""
+    pv = _pv()
+    labels = ["entry=" + case["entry"], "plays=%d" % len(case["plays"])]
+    texts, signed_canon, sigs = [], [], []
+    for item in case["plays"]:
+        kind = item["kind"]
+        pa, _t = _materialise({"mode": "yaml", "a": item["a"]}, "a")
+        if pa is None:
+            return {"nontrivial": False, "labels": labels + ["yaml-unloadable"]}
+        oa = observe(pa)
+        if oa[0] != "ok":
+            return {"nontrivial": False, "labels": labels + ["play-without-digest/" + oa[1]]}
+        signature = _toy_signature(oa[1])
+        if kind == "wrong-signature":
+            signature = _toy_signature(hashlib.sha256(b"another play " + oa[1]).digest())
+        placed = item["b"] if item.get("b") is not None else item["a"]
+        if _has_vars_mapping(placed):
+            placed = _set_child(placed, "vars", SIG, None if kind == "no-signature" else S(signature))
+            if kind == "no-exclusion-list":
+                placed = _set_child(placed, "vars", EXCL, None)
+            elif kind == "other-label":
+                ex = [c[1]["s"] for kv in placed["m"] if kv[0].get("s") == "vars" for c in kv[1]["m"]
+                      if c[0].get("s") == EXCL and "s" in c[1]]
+                if ex:
+                    placed = _set_child(placed, "vars", EXCL, S(ex[0] + ",/tasks"))
+        texts.append(emit_yaml(norm(placed)))
+        signed_canon.append(oa[2])
+        sigs.append(signature)
+    joint = ("---\n" if case.get("doc_start") else "") + "".join(texts)
+    try:
+        docs = pv.load_playbook_yaml(joint)
+    except pv.PlaybookVerificationError:
+        return {"nontrivial": False, "labels": labels + ["yaml-unloadable"]}
+    if not isinstance(docs, list) or len(docs) != len(texts) or not all(isinstance(d, dict) for d in docs):
+        return {"nontrivial": False, "labels": labels + ["joint-text-is-not-the-list-of-plays"]}
+    # what has to happen to every play
+    obs = []
+    for q in docs:
+        oq = observe(q)
+        if oq[0] == "skip" or (oq[0] == "err" and oq[1] == "unencodable"):
+            return {"nontrivial": False, "labels": labels + ["play-outside-domain/" + oq[1]]}
+        obs.append(oq)
+    entries, revoked = [], set()
+    for i, (item, oq) in enumerate(zip(case["plays"], obs)):
+        if item["kind"].startswith("revoked") and oq[0] == "ok":
+            entries.append(("play %d" % i, oq[1].hex()))
+            revoked.add(oq[1])
+    for k in range(case.get("unrelated", 0)):
+        entries.insert((k * 2) % (len(entries) + 1), ("other %d" % k, hashlib.sha256(b"unrelated %d" % k).hexdigest()))
+    unsigned_list = _revocation_yaml(entries, "AAAA")
+    lo = observe(pv.load_playbook_yaml(unsigned_list)[0])
+    if lo[0] != "ok":
+        raise HarnessError("revocation list play has no digest: %r" % (lo,))
+    list_yaml = _revocation_yaml(entries, _toy_signature(lo[1]))
+    expect = []
+    for i, (item, q, oq) in enumerate(zip(case["plays"], docs, obs)):
+        sig = q["vars"].get(SIG) if isinstance(q.get("vars"), dict) else None
+        if oq[0] == "err":
+            expect.append(("refuse", "no digest: " + oq[1]))
+        elif sig is None:
+            expect.append(("refuse", "signature missing"))
+        elif str(sig) != sigs[i]:
+            raise HarnessError("signature not in place")
+        elif item["kind"] == "wrong-signature":
+            expect.append(("refuse", "the signature was made for another digest"))
+        elif oq[1] in revoked:
+            expect.append(("refuse", "digest is on the revocation list"))
+        elif oq[2] != signed_canon[i]:
+            expect.append(("refuse", "play differs outside the excluded elements from what was signed"))
+        else:
+            expect.append(("accept", "signed content unchanged and not revoked"))
+    first_bad = [i for i, e in enumerate(expect) if e[0] == "refuse"]
+    labels.append("expect=" + ("accept-all" if not first_bad else "refuse"))
+    if first_bad:
+        labels.append("first-refused-play=%s" % ("first" if first_bad[0] == 0 else "later"))
+        labels.append("why=" + expect[first_bad[0]][1].split(":")[0])
+    with _Stub(revocation_yaml=list_yaml):
+        if case["entry"] == "main":
+            code, out, err = _run_entry_point(joint)
+            if first_bad and code == 0:
+                i = first_bad[0]
+                raise Violation("the entry point accepted (exit status 0) a playbook of %d plays although play %d must be "
+                                "refused: %s" % (len(docs), i, expect[i][1]), playbook=joint, revocation_list=list_yaml[-600:],
+                                kinds=[it["kind"] for it in case["plays"]])
+            if not first_bad and code != 0:
+                raise Violation("the entry point refused (exit status %r: %s) a playbook whose plays are all signed, "
+                                "unchanged outside their excluded elements and not revoked" % (code, err.strip()[:200]),
+                                playbook=joint, revocation_list=list_yaml[-600:])
+        else:
+            for i, q in enumerate(docs):
+                try:
+                    pv.verify(q)
+                    got = "accept"
+                except pv.PlaybookVerificationError as e:
+                    got = "refuse: %s" % e
+                if got.split(":")[0] != expect[i][0]:
+                    raise Violation("verify() call %d of a sequence over the plays of one playbook must %s the play (%s) "
+                                    "but did %s" % (i, expect[i][0], expect[i][1], got[:200]), playbook=joint,
+                                    revocation_list=list_yaml[-600:], kinds=[it["kind"] for it in case["plays"]])
+    nt = bool(first_bad) and first_bad[0] > 0 or (not first_bad and len(docs) > 1)
+    return {"nontrivial": nt, "labels": labels,
+            "key": [[canon(d) for d in docs], sorted(x.hex() for x in revoked)]}
+
+
+@st.composite
+def _playbook_case(draw):
+    n = draw(st.sampled_from([1, 2, 2, 3, 3, 4]))
+    scenario = draw(st.sampled_from(["one-fault", "one-fault", "one-fault", "all-valid", "free"]))
+    fault_at = n - 1 - draw(st.integers(0, n - 1))       # (small draws are favoured: the faulty play tends to come late)
+    fault = draw(st.sampled_from([k for k in PLAY_KINDS if not k.startswith("valid")]))
+    plays = []
+    for i in range(n):
+        tree, excluded = draw(_play(signed=True))
+        if scenario == "free":
+            kind = draw(st.sampled_from(PLAY_KINDS))
+        elif scenario == "one-fault" and i == fault_at:
+            kind = fault
+        else:
+            kind = draw(st.sampled_from(["valid", "valid", "valid-excluded-edit"]))
+        b = None
+        if kind.endswith("excluded-edit"):
+            b = _apply_edit(draw, tree, draw(st.sampled_from(["scalar", "type", "insert", "delete", "wrap"])), excluded)
+        elif kind == "edited":
+            b = _apply_edit(draw, tree, draw(st.sampled_from(EDITS[:-1])), None)
+        plays.append({"a": tree, "b": b, "kind": kind})
+    return {"plays": plays, "entry": draw(st.sampled_from(["main", "main", "main", "main", "loop"])),
+            "unrelated": draw(st.integers(0, 2)), "doc_start": draw(st.booleans())}
+
+
+def strat_playbook(tier):
+    return _playbook_case()
+
+
+# ---------------------------------------------------------------------------------------------
 # self-test of the harness' own models
 # ---------------------------------------------------------------------------------------------
 
@@ -1545,6 +2110,22 @@ def selftest():
     loaded = pv.load_playbook_yaml(emit_yaml(tree))[0]
     assert canon(loaded) == canon(build_py(tree)), (canon(loaded), canon(build_py(tree)), emit_yaml(tree))
     assert type(loaded).__name__ == "CommentedMap"
+    # shared nodes: emitter / builder / graph model on a fixed play (vars referenced from a task, before its definition)
+    plain = M((S("tasks", "p"), L(M((S("k"), S("v"))))), (S("hosts", "p"), S("h")),
+              (S("vars", "p"), M((S(EXCL, "p"), S("/hosts,/vars/" + SIG)), (S(SIG, "p"), S("QUFB")), (S("g"), L(I(1))))))
+    share = [{"src": ["vars"], "sites": [{"where": "task", "front": True}, {"where": "vars", "front": False}]},
+             {"src": ["vars", "g"], "sites": [{"where": "top", "front": True}]}]
+    tree, defs, applied = with_shared_nodes(plain, share)
+    assert applied == 1 and list(defs) == ["a0"], (applied, defs)      # a reference to vars inside vars is refused
+    tree, defs, applied = with_shared_nodes(plain, [{"src": ["vars"], "sites": [{"where": "task", "front": True}]}, share[1]])
+    assert applied == 2
+    for obj in (build_shared(tree, defs, {}), pv.load_playbook_yaml(emit_yaml(tree, defs))[0]):
+        assert obj["tasks"][0]["vars"] is obj["vars"] and obj["zalias_a1_0"] is obj["vars"]["g"]
+        root, nodes = graph_of(obj)
+        assert g_expand(root, nodes) == canon(obj)
+        want = {"zalias_a1_0": [1], "tasks": [{"name": "shared", "vars": {EXCL: "/hosts,/vars/" + SIG, "g": [1]}}, {"k": "v"}],
+                "vars": {EXCL: "/hosts,/vars/" + SIG, "g": [1]}}
+        assert model_clean_graph(obj) == ("ok", canon(want)), model_clean_graph(obj)
 
 
 # ---------------------------------------------------------------------------------------------
@@ -1613,13 +2194,15 @@ def strat_dupkey(tier):
 
 
 SUBS = [
-    Sub("dupkey", check_dupkey, strategy=strat_dupkey, quick=200, thorough=3000, workers_quick=2, workers_thorough=8),
+    Sub("dupkey", check_dupkey, strategy=strat_dupkey, quick=160, thorough=3000, workers_quick=2, workers_thorough=8),
     Sub("exhaustive", check_pair, custom=exhaustive, workers_quick=1, workers_thorough=1, budget_quick=60,
         budget_thorough=600),
-    Sub("digest", check_pair, strategy=strat_digest, quick=400, thorough=5000, workers_quick=4, workers_thorough=16),
-    Sub("exclusion", check_pair, strategy=strat_exclusion, quick=400, thorough=4000, workers_quick=2, workers_thorough=8),
+    Sub("digest", check_pair, strategy=strat_digest, quick=360, thorough=5000, workers_quick=4, workers_thorough=16),
+    Sub("exclusion", check_pair, strategy=strat_exclusion, quick=340, thorough=4000, workers_quick=2, workers_thorough=8),
     Sub("presence", check_presence, strategy=strat_presence, quick=250, thorough=3000, workers_quick=2, workers_thorough=8),
     Sub("verify", check_verify, strategy=strat_verify, quick=120, thorough=2000, workers_quick=4, workers_thorough=16),
+    Sub("shared", check_shared, strategy=strat_shared, quick=110, thorough=1500, workers_quick=2, workers_thorough=8),
+    Sub("playbook", check_playbook, strategy=strat_playbook, quick=60, thorough=400, workers_quick=2, workers_thorough=8),
 ]
 
 # Reproducers of collisions that remain after fixes/C18-1.patch and that no small safe patch removes
